@@ -234,6 +234,9 @@ func (self *AofFile) Open() error {
 			if err == nil {
 				err = self.WriteHeader()
 			}
+		} else if (self.size-12)%64 != 0 {
+			self.size -= (self.size - 12) % 64
+			err = self.file.Truncate(int64(self.size))
 		} else {
 			err = nil
 		}
